@@ -377,11 +377,11 @@ func exec(s *Scenario) (ms []core.Mismatch, skipped bool, evals int64) {
 						}
 					}
 				}
-				// the same map applied by the library itself: Path.Transform (translations and reflections only, the maps the
-				// statement names; quarter turns and the scale 1/2 are left to the re-built path above). Bounds and FastBounds
+				// the same map applied by the library itself: Path.Transform (translations and reflections only, incl. the
+				// reflections in the diagonals; quarter turns and the scale 1/2 are left to the re-built path above). Bounds and FastBounds
 				// of the transformed path against the specification's exact box of the image and against the mapped outputs.
-				if s.Emb.Swap == 0 {
-					m := canvas.Matrix{{e.A, 0, e.E}, {0, e.D, e.F}}
+				if s.Emb.Swap == 0 || e.Det() < 0 { // Swap = 1 with negative determinant: the reflections in y = x and y = -x
+					m := canvas.Matrix{{e.A, e.B, e.E}, {e.C, e.D, e.F}}
 					var rt result
 					okT, pmT := latgeo.Try(func() { rt = run(p0.Copy().Transform(m)) })
 					switch {
